@@ -44,6 +44,7 @@ def Val.truthy : Val → Bool
 inductive UnOp | lnot | bnot | neg
   deriving DecidableEq, Repr
 inductive BinOp | add | sub | band | bor | bxor | shl | shr | eq | ne | lt | le | gt | ge | land | lor | mul | div | mod
+  | tagand | tagor     -- `((unsigned long) p) & m`, `((unsigned long) p) | k` on a pointer-typed p: act on its low tag bits
   deriving DecidableEq, Repr
 
 inductive Expr
@@ -105,6 +106,16 @@ structure Env where
 def Env.setVar (e : Env) (x : String) (v : Val) : Env := { e with vars := fun y => if y = x then some v else e.vars y }
 def Env.setPriv (e : Env) (l : Loc) (v : Val) : Env := { e with priv := fun m => if m = l then some v else e.priv m }
 
+/-! Low tag bits of pointers (rculfhash: REMOVED / BUCKET / REMOVAL_OWNER in bits 0-2 of `next`): a tagged pointer is the
+location `field l "|k"` (k ≠ 0) of the untagged `l`; `p | k`, `p & k` (k < 8) and `p & ~mask` act on the tag only. -/
+def Loc.tagOf : Loc → Nat
+  | .field _ f => if f.startsWith "|" then (f.drop 1).toString.toNat?.getD 0 else 0
+  | _ => 0
+def Loc.untag : Loc → Loc
+  | .field b f => if f.startsWith "|" then b else .field b f
+  | l => l
+def Loc.withTag (l : Loc) (k : Nat) : Loc := if k = 0 then l.untag else .field l.untag s!"|{k}"
+
 def evalUn : UnOp → Val → Except String Val
   | .lnot, v => .ok (.int (if v.truthy then 0 else 1))
   | .bnot, _ => .error "bnot: not in the subset"
@@ -132,6 +143,14 @@ def evalBin : BinOp → Val → Val → Except String Val
   | .ge, .int a, .int b => .ok (boolV (a ≥ b))
   | .land, a, b => .ok (boolV (a.truthy && b.truthy))     -- operands are call-free in the subset: no short-circuit effect
   | .lor, a, b => .ok (boolV (a.truthy || b.truthy))
+  | .tagor, .ptr l, .int k =>
+    if 0 ≤ k ∧ k < 8 then .ok (.ptr (l.withTag (l.tagOf ||| k.toNat))) else .error "tagor: more than tag bits"
+  | .tagor, .int a, .int k => if 0 ≤ a ∧ 0 ≤ k then .ok (.int (Int.ofNat (a.toNat ||| k.toNat))) else .error "tagor of a negative operand"
+  | .tagand, .ptr l, .int m =>
+    if 0 ≤ m ∧ m < 8 then .ok (.int (Int.ofNat (l.tagOf &&& m.toNat)))                       -- test of tag bits
+    else if 4294967296 ≤ m then .ok (.ptr (l.withTag (l.tagOf &&& (m.toNat % 8))))             -- `& ~mask`: clears tag bits only
+    else .error "tagand of a pointer with this mask"
+  | .tagand, .int a, .int m => if 0 ≤ a ∧ 0 ≤ m then .ok (.int (Int.ofNat (a.toNat &&& m.toNat))) else .error "tagand of a negative operand"
   | _, _, _ => .error "binary operator on these operand kinds: not in the subset"
 
 def asLoc : Val → Except String Loc
